@@ -68,3 +68,32 @@ pub fn store(rest: &str) -> String {
 pub fn storef(rest: &str) -> String {
     run(rest, |v| f32::from_bits(v.parse::<u32>().unwrap()), |v: &f32| format!("{}", v.to_bits()))
 }
+
+/// zero-sized value types (a storage of them holds no bytes; `Vec` capacity is `usize::MAX`): one with the ordinary reflexive equality,
+/// one unequal to itself
+#[derive(Debug, Clone, Copy)]
+struct Zr;
+impl PartialEq for Zr {
+    fn eq(&self, _: &Zr) -> bool {
+        true
+    }
+}
+#[derive(Debug, Clone, Copy)]
+struct Zi;
+impl PartialEq for Zi {
+    fn eq(&self, _: &Zi) -> bool {
+        false
+    }
+}
+
+/// `storez <r|i> (a: | f:)*` on `Storage<Zr>` / `Storage<Zi>`
+pub fn storez(rest: &str) -> String {
+    let rest = rest.trim_start();
+    if let Some(r) = rest.strip_prefix("r") {
+        run(r, |_| Zr, |_: &Zr| "z".to_string())
+    } else if let Some(r) = rest.strip_prefix("i") {
+        run(r, |_| Zi, |_: &Zi| "z".to_string())
+    } else {
+        "bad-request".to_string()
+    }
+}
